@@ -243,6 +243,12 @@ type wrapFS struct{ m fstest.MapFS }
 
 func (w wrapFS) Open(name string) (fs.File, error) { return w.m.Open(name) }
 
+// ifaceFS is comparable as a TYPE (a struct with an interface field) but not as a value when the
+// field holds a map
+type ifaceFS struct{ inner fs.FS }
+
+func (w ifaceFS) Open(name string) (fs.File, error) { return w.inner.Open(name) }
+
 func ownContent(kind string, v int) string {
 	return "content of " + kind + " file system " + itoa(v) + "\n"
 }
@@ -253,7 +259,11 @@ func mkFuncFS(v int) fs.FS {
 }
 
 var (
-	sinkFuncFS = [2]fs.FS{mkFuncFS(0), mkFuncFS(1)}
+	sinkFuncFS  = [2]fs.FS{mkFuncFS(0), mkFuncFS(1)}
+	sinkIfaceFS = [2]fs.FS{
+		ifaceFS{fstest.MapFS{"own.txt": {Data: []byte(ownContent("iface-struct", 0))}}},
+		ifaceFS{fstest.MapFS{"own.txt": {Data: []byte(ownContent("iface-struct", 1))}}},
+	}
 	sinkWrapFS = [2]fs.FS{
 		wrapFS{fstest.MapFS{"own.txt": {Data: []byte(ownContent("struct", 0))}}},
 		wrapFS{fstest.MapFS{"own.txt": {Data: []byte(ownContent("struct", 1))}}},
@@ -497,8 +507,13 @@ func sink(c fiber.Ctx) error {
 			err = c.SendFile("own.txt", fiber.SendFile{FS: sinkFuncFS[v], CacheDuration: -1})
 			want = ownContent("func", v)
 		case 17:
-			err = c.SendFile("own.txt", fiber.SendFile{FS: sinkWrapFS[v], CacheDuration: -1})
-			want = ownContent("struct", v)
+			if rid != "" && (rid[len(rid)-1]>>1)&1 == 1 {
+				err = c.SendFile("own.txt", fiber.SendFile{FS: sinkIfaceFS[v], CacheDuration: -1})
+				want = ownContent("iface-struct", v)
+			} else {
+				err = c.SendFile("own.txt", fiber.SendFile{FS: sinkWrapFS[v], CacheDuration: -1})
+				want = ownContent("struct", v)
+			}
 		case 12:
 			err = c.SendFile("hello.txt", fiber.SendFile{FS: sinkMapFS, CacheDuration: -1})
 		case 13:
@@ -1061,6 +1076,8 @@ func runSurvive(e *ev.Env) {
 	one("global-use-empty-path", appOpts{globalUse: true}, []byte("GET  HTTP/1.1\r\nHost: x\r\n\r\n"), 0)
 	one("global-use-star-target", appOpts{globalUse: true}, []byte("OPTIONS * HTTP/1.1\r\nHost: x\r\n\r\n"), 0)
 	one("global-use-absolute-uri-no-path", appOpts{globalUse: true}, []byte("GET http://abs.example.org HTTP/1.1\r\nHost: x\r\n\r\n"), 0)
+	one("accept-type-without-subtype", appOpts{}, get("/ks?rid=c20&op=4", "Accept: text\r\n"), 200)
+	one("accept-type-empty-subtype", appOpts{}, get("/ks?rid=c21&op=3", "Accept: text/, /html, application\r\n"), 200)
 	one("head-body-too-large", appOpts{}, []byte("HEAD /ks HTTP/1.1\r\nHost: x\r\nContent-Length: 99999999\r\n\r\n"), 0)
 	flashReq := func(v []byte) []byte {
 		return append(append([]byte("GET /ks?rid=c5 HTTP/1.1\r\nHost: x\r\nCookie: fiber_flash="), v...), "\r\n\r\n"...)
